@@ -41,13 +41,17 @@ def main():
     sh("git checkout -- . && git clean -fdq tests", cwd=wt)
     os.makedirs(os.path.join(wt, "tests"), exist_ok=True)
     shutil.copy(demo, os.path.join(wt, "tests", "demo.rs"))
-    c, o = sh("timeout 900 cargo test --offline --features ipnetwork,cidr,serde --test demo 2>&1 | tail -15", cwd=wt)
+    # SEED_DEMO_MIRI=1: the demonstration is an aliasing violation that only the Miri interpreter can show
+    demo_cmd = "cargo test --offline --features ipnetwork,cidr,serde --test demo"
+    if os.environ.get("SEED_DEMO_MIRI") == "1":
+        demo_cmd = "env MIRIFLAGS=-Zmiri-disable-isolation cargo +nightly miri test --offline --test demo"
+    c, o = sh(f"timeout 900 {demo_cmd} 2>&1 | tail -15", cwd=wt)
     ok_head = "test result: ok" in o and "FAILED" not in o
     meta["ran"].append({"cmd": "demo at HEAD", "passes": ok_head, "tail": o[-600:]})
     c, o = sh(f"git apply {patch}", cwd=wt)
     meta["ran"].append({"cmd": "git apply patch.diff", "ok": c == 0, "out": o[-300:]})
     applies = c == 0
-    c, o = sh("timeout 900 cargo test --offline --features ipnetwork,cidr,serde --test demo 2>&1 | tail -25", cwd=wt)
+    c, o = sh(f"timeout 900 {demo_cmd} 2>&1 | tail -25", cwd=wt)
     demo_fails = ("FAILED" in o or "panicked" in o or c == 124 or "error" in o) and "test result: ok" not in o
     meta["ran"].append({"cmd": "demo with patch", "fails": demo_fails, "tail": o[-900:]})
     os.remove(os.path.join(wt, "tests", "demo.rs"))
@@ -67,7 +71,7 @@ def main():
     vdir = "/verif"
     if sandbox:
         vdir = "/tmp/sv_verif"
-        c, o = sh(f"mkdir -p {vdir} && rsync -a --delete --exclude target --exclude .work --exclude replays --exclude .git --exclude evidence /verif/ {vdir}/ && sed -i 's#path = \"/repo\"#path = \"{wt}\"#' {vdir}/harness/Cargo.toml {vdir}/sched/Cargo.toml 2>/dev/null; grep -n 'path = ' {vdir}/harness/Cargo.toml")
+        c, o = sh(f"mkdir -p {vdir} && rsync -a --delete --exclude target --exclude .work --exclude replays --exclude .git --exclude evidence /verif/ {vdir}/ && sed -i 's#path = \"/repo\"#path = \"{wt}\"#' {vdir}/harness/Cargo.toml {vdir}/sched/Cargo.toml {vdir}/alias/Cargo.toml 2>/dev/null; grep -n 'path = ' {vdir}/harness/Cargo.toml")
         assert wt in o, o
     else:
         st_c, st = sh("git -C /repo status --porcelain")
